@@ -30,6 +30,11 @@ Law(ev) ==
               /\ Check(Same(ev, "cfs"), "C10", "locale-changes-conditional-formats")
               /\ Check(Same(ev, "names"), "C10", "locale-changes-names")
               /\ Check(Same(ev, "names"), "C32", "locale-changes-names")
+         [] ev.ev = "reparse" ->        \* right after a switch everything stored is read again: nothing may change
+              /\ Check(Same(ev, "vals"), "C10", "switch-then-reread-changes-values")
+              /\ Check(Same(ev, "stored"), "C10", "switch-then-reread-changes-stored-formulas")
+              /\ Check(Same(ev, "names"), "C10", "switch-then-reread-changes-names")
+              /\ Check(Same(ev, "cfs"), "C10", "switch-then-reread-changes-conditional-formats")
          [] ev.ev = "retype" ->
               /\ Check(Same(ev, "stored"), "C10", "re-entry-changes-stored-formula")
               /\ Check(Same(ev, "vals"), "C10", "re-entry-changes-values")
